@@ -286,6 +286,126 @@ def mutate(rng, t, k, labels, costs):
 
 
 # ------------------------------------------------------------------------------------------------
+# histories: trees built ONCE, then a sequence of calls on ONE analyzer; every argument of a call is (tree index, path to a
+# subtree), so a tree and its own subtrees (the same TreeNode objects) appear as arguments of different calls of one history
+# ------------------------------------------------------------------------------------------------
+def subpaths(t):
+    """paths (tuples of child indices) of all nodes of t in pre-order, the root () first"""
+    out, st = [], [((), t)]
+    while st:
+        p, x = st.pop()
+        out.append(p)
+        for k in range(len(x[1]) - 1, -1, -1):
+            st.append((p + (k,), x[1][k]))
+    return out
+
+
+def at(t, p):
+    for k in p:
+        t = t[1][k]
+    return t
+
+
+def position_class(p):
+    if not p:
+        return "root"
+    if len(p) == 1:
+        return "left-most child" if p[0] == 0 else "other child"
+    return "deeper, on the left-most path" if not any(p) else "deeper, off the left-most path"
+
+
+def overlap_class(ra, rb):
+    """how the OBJECTS of the two arguments of one call relate"""
+    (ta, pa), (tb, pb) = ra, rb
+    if ta != tb:
+        return "separate objects"
+    if pa == pb:
+        return "same object"
+    if len(pa) > len(pb):
+        pa, pb = pb, pa
+    if pb[:len(pa)] != pa:
+        return "disjoint subtrees of one tree"
+    return "descendant on the left-most path" if not any(pb[len(pa):]) else "descendant off the left-most path"
+
+
+def gen_histories(rng, ncfg, cres, per_cfg, nrandom):
+    """[{ci, kind, trees, calls}], calls = [(f, ref a, ref b)], f in d/sim/prep, ref = (tree index, path); tree 0 = T, 1 = X, 2 = a
+    separate copy of T.  For every cost model: [per_cfg] trees T, and for EVERY non-root position p of T one history
+    f(T,X); g(subtree p, partner); f(T,X) again; ... (partner rotating over the other tree, its subtrees, the copy of the subtree,
+    T itself, other subtrees of T, the subtree itself), continued to 3-8 calls; plus [nrandom] unstructured histories per T."""
+    hists = []
+    partners = ["X", "Xsub", "Csub", "own", "Tsub", "self", "C"]
+    for ci in range(ncfg):
+        if "error" in cres[ci]:
+            continue
+        for r_ in range(per_cfg):
+            labs = rng.sample(range(len(LABELS)), rng.choice([2, 2, 3]))
+            n = rng.randint(5, 12)
+            T = rand_tree(rng, n, labs)
+            for _ in range(6):
+                # usually a tree with an inner node off its left-most path (the subtrees whose numbering differs from T's own)
+                if r_ % 4 == 3 or any(any(p) and at(T, p)[1] for p in subpaths(T)):
+                    break
+                T = rand_tree(rng, n, labs)
+            if rng.random() < 0.5:
+                X = mutate(rng, T, rng.randint(1, 4), labs, cres[ci])[0]
+            else:
+                X = rand_tree(rng, rng.randint(5, 12), labs)
+            trees = [T, X, clone(T)]
+            pT, pX = subpaths(T), subpaths(X)
+            pool = [(ti, p) for ti, ps in ((0, pT), (1, pX), (2, pT)) for p in ps]
+            root = lambda ti: (ti, ())
+            anyref = lambda: root(rng.randrange(3)) if rng.random() < 0.4 else rng.choice(pool)
+            fdist = lambda: rng.choice(["d", "d", "sim"])
+            flip = lambda f, a, b: (f, a, b) if rng.random() < 0.5 else (f, b, a)
+            off = rng.randrange(len(partners))
+
+            def mid(p, kind):
+                S = (0, p)
+                y = {"X": root(1), "Xsub": (1, rng.choice(pX)), "Csub": (2, p), "own": root(0), "Tsub": (0, rng.choice(pT[1:])),
+                     "self": S, "C": root(2)}[kind]
+                return flip(fdist(), S, y)
+
+            for k, p in enumerate(pT[1:]):
+                first = flip(fdist(), root(0), root(1))
+                calls = [first, mid(p, partners[(k + off) % len(partners)]), first]
+                want = rng.randint(3, 8)
+                while len(calls) < want:
+                    t_ = rng.randrange(6)
+                    if t_ == 0:
+                        calls.append(flip(fdist(), root(0), root(2)))        # T against its identical copy
+                    elif t_ == 1:
+                        calls.append((first[0], first[2], first[1]))           # the other argument order
+                    elif t_ == 2:
+                        calls.append((fdist(), root(0), root(0)))               # the same object twice
+                    elif t_ == 3:
+                        calls.append(mid(rng.choice(pT[1:]), rng.choice(partners)))
+                        calls.append(first)
+                    elif t_ == 4:
+                        calls.append(flip(fdist(), root(1), (0, p)))
+                    else:
+                        calls.append(("d" if first[0] == "sim" else "sim", first[1], first[2]))
+                calls = calls[:8]
+                if rng.random() < 0.2:
+                    # the clone detector prepares a fragment's tree once when it extracts it
+                    calls = ([("prep", root(0), None), ("prep", root(1), None)] + calls)[:8]
+                hists.append({"ci": ci, "kind": "history-subtree-at-" + position_class(p), "trees": trees, "calls": calls})
+            for _ in range(nrandom):
+                calls = []
+                for _ in range(rng.randint(3, 8)):
+                    f = rng.choice(["d"] * 11 + ["sim"] * 8 + ["prep"])
+                    calls.append((f, anyref(), anyref() if f != "prep" else None))
+                hists.append({"ci": ci, "kind": "history-random", "trees": trees, "calls": calls})
+    return hists
+
+
+def hist_request(cfg, trees, calls):
+    ref = lambda r: None if r is None else {"t": r[0], "p": list(r[1])}
+    return dict(cfg_req(cfg), op="ted_seq", trees=[json_tree(t) for t in trees],
+                calls=[{"f": f, "a": ref(a), "b": ref(b)} for f, a, b in calls])
+
+
+# ------------------------------------------------------------------------------------------------
 def fr(x):
     return Fraction(x)
 
@@ -529,12 +649,39 @@ def main(tier):
             if thorough:
                 add("w-random", ci, b, a)
 
+    # H. histories: the TreeNode objects are built once and shared by all calls of a history (as the fragments of the clone detector
+    #    are shared by all pairs they take part in); a tree and its own subtrees are arguments of different calls. EVERY result is
+    #    decided against the spec of the two (sub)trees of that call alone: a result must not depend on the calls made before it.
+    hists = gen_histories(rng, len(ALLCFG), cres, 6 if thorough else 2, 6 if thorough else 2)
+    hpairs, hkey = [], {}
+
+    def pair_key(ci, a, b):
+        """spec evaluations are shared between calls; a weighted-family evaluation decides both directions"""
+        ca, cb = canon(a), canon(b)
+        sw = ci >= W0 and cb < ca
+        return (ci, cb, ca) if sw else (ci, ca, cb), sw
+
+    for h in hists:
+        for f, ra, rb in h["calls"]:
+            if f == "prep":
+                continue
+            a, b = at(h["trees"][ra[0]], ra[1]), at(h["trees"][rb[0]], rb[1])
+            key, sw = pair_key(h["ci"], a, b)
+            if key not in hkey:
+                hkey[key] = len(hpairs)
+                hpairs.append({"kind": "history-pair", "ci": h["ci"], "a": b if sw else a, "b": a if sw else b, "brute": False,
+                               "bound": None, "coq": True, "lite": False})
+
     # ---------------- implementation ------------------------------------------------------------------
     reqs = [dict(cfg_req(ALLCFG[c["ci"]]), op="ted_w" if is_w(ALLCFG[c["ci"]]) else "ted", lite=c["lite"],
                  t1=json_tree(c["a"]), t2=json_tree(c["b"])) for c in cases]
     t_impl = time.time()
     impl = lib.driver(reqs, timeout=1200 if thorough else 400)
     lib.log("C07: %d cases on the implementation in %.1fs" % (len(reqs), time.time() - t_impl))
+    t_impl = time.time()
+    himpl = lib.driver([hist_request(ALLCFG[h["ci"]], h["trees"], h["calls"]) for h in hists], timeout=600)
+    lib.log("C07: %d histories (%d calls, %d distinct pairs of (sub)trees) on the implementation in %.1fs" % (
+        len(hists), sum(len(h["calls"]) for h in hists), len(hpairs), time.time() - t_impl))
 
     # E. above the limit: only the similarity-range / identical-trees clauses apply
     big = []
@@ -586,26 +733,27 @@ def main(tier):
                 r["size1"], r["sim_aa"], r["sim_bb"], r["sim_copy_a"]), {"kind": "big", "request": rq, "impl": r})
 
     # ---------------- model and spec in Coq -----------------------------------------------------------
-    model = [None] * len(cases)
+    allc = cases + hpairs   # the pairs of (sub)trees of the history calls are evaluated with the cases
+    model = [None] * len(allc)
     if ted_ok:
-        idx = [i for i, c in enumerate(cases) if c["coq"] and c["ci"] < W0]
-        widx = [i for i, c in enumerate(cases) if c["coq"] and c["ci"] >= W0]
+        idx = [i for i, c in enumerate(allc) if c["coq"] and c["ci"] < W0]
+        widx = [i for i, c in enumerate(allc) if c["coq"] and c["ci"] >= W0]
         # balance shards by estimated work
         def work(c):
             # the memoised spec uses the leftmost decomposition only: left-deep shapes cost up to O(n^4)
             return ((size(c["a"]) * size(c["b"])) ** 2 / 1000.0 * (6 if c["kind"] == "shape" else 1) + 4 + (3 if c["brute"] else 0)) * (2.5 if c["ci"] else 1)
-        idx.sort(key=lambda i: -work(cases[i]))
+        idx.sort(key=lambda i: -work(allc[i]))
         nsh = 26 if not thorough else 84
         shards = [[] for _ in range(nsh)]
         load = [0.0] * nsh
         for i in idx:
             k = load.index(min(load))
             shards[k].append(i)
-            load[k] += work(cases[i])
+            load[k] += work(allc[i])
         jobs = []
         for k, sh in enumerate(shards):
-            items = ["%s cm%d %s %s" % ("run_ted_brute" if cases[i]["brute"] else "run_ted", cases[i]["ci"],
-                                       coq_tree(cases[i]["a"]), coq_tree(cases[i]["b"])) for i in sh]
+            items = ["%s cm%d %s %s" % ("run_ted_brute" if allc[i]["brute"] else "run_ted", allc[i]["ci"],
+                                       coq_tree(allc[i]["a"]), coq_tree(allc[i]["b"])) for i in sh]
             jobs.append(("C07_cases_%d" % k, REQ, PRELUDE + "Eval vm_compute in %s.\n" % clist(items)))
         # the weighted family: whole members per shard (each shard tabulates only the members it evaluates)
         nwsh = 8 if not thorough else 28
@@ -613,16 +761,16 @@ def main(tier):
         wload = [0.0] * nwsh
         bycfg = {}
         for i in widx:
-            bycfg.setdefault(cases[i]["ci"], []).append(i)
-        for ci_, grp in sorted(bycfg.items(), key=lambda kv: -sum(work(cases[i]) for i in kv[1])):
+            bycfg.setdefault(allc[i]["ci"], []).append(i)
+        for ci_, grp in sorted(bycfg.items(), key=lambda kv: -sum(work(allc[i]) for i in kv[1])):
             for part in ([grp[:len(grp) // 2], grp[len(grp) // 2:]] if len(grp) > 300 else [grp]):
                 k = wload.index(min(wload))
                 wshards[k].extend(part)
-                wload[k] += 2 * sum(work(cases[i]) for i in part) + 150
+                wload[k] += 2 * sum(work(allc[i]) for i in part) + 150
         for k, sh in enumerate(wshards):
-            items = ["%s cm%d %s %s" % ("run_ted_w_brute" if cases[i]["brute"] else "run_ted_w", cases[i]["ci"],
-                                       coq_tree(cases[i]["a"]), coq_tree(cases[i]["b"])) for i in sh]
-            jobs.append(("C07_wcases_%d" % k, REQ, TBL + cm_defs(ALLCFG, sorted(set(cases[i]["ci"] for i in sh))) +
+            items = ["%s cm%d %s %s" % ("run_ted_w_brute" if allc[i]["brute"] else "run_ted_w", allc[i]["ci"],
+                                       coq_tree(allc[i]["a"]), coq_tree(allc[i]["b"])) for i in sh]
+            jobs.append(("C07_wcases_%d" % k, REQ, TBL + cm_defs(ALLCFG, sorted(set(allc[i]["ci"] for i in sh))) +
                          "Eval vm_compute in %s.\n" % clist(items)))
         shards = shards + wshards
         idx = idx + widx
@@ -771,10 +919,161 @@ def main(tier):
             if nviol["tie"] <= 3:
                 ck.broken_ties.append("model Ted/ZS.v gives %s, spec %s, implementation %s on %s" % (model_d, spec_d, d, rep))
 
-    ck.samples = [{"t1": json_tree(cases[k]["a"]), "t2": json_tree(cases[k]["b"]), "cost": cfg_name(ALLCFG[cases[k]["ci"]]), "impl_d": impl[k].get("d"),
+    # ---------------- decide per history: every call against the spec of ITS OWN two (sub)trees ---------------
+    hexp = {}
+    for key, k in hkey.items():
+        m = model[len(cases) + k]
+        if m is None:
+            continue
+        mv = [unlimb(x) for x in m]
+        scale = cfg_scale(ALLCFG[key[0]])
+        c = hpairs[k]
+        e = {"ab": Fraction(mv[0], scale)}
+        bad_tie = mv[5] != size(c["a"]) or mv[6] != size(c["b"]) or mv[1] is None or Fraction(mv[1], scale) != e["ab"] or mv[4] != 1
+        if key[0] >= W0:
+            e["ba"] = Fraction(mv[7], scale)
+            bad_tie = bad_tie or mv[8] is None or Fraction(mv[8], scale) != e["ba"]
+        if bad_tie:
+            nviol["tie"] += 1
+            if nviol["tie"] <= 3:
+                ck.broken_ties.append("model Ted/ZS.v differs from the spec (or the tree was transmitted wrongly) on the history pair %s %s [%s]: %s" % (
+                    json_tree(c["a"]), json_tree(c["b"]), cfg_name(ALLCFG[key[0]]), mv))
+        hexp[key] = e
+
+    def h_args(h, call):
+        return at(h["trees"][call[1][0]], call[1][1]), at(h["trees"][call[2][0]], call[2][1])
+
+    def h_expected(h, call):
+        """spec value of one call: the two (sub)trees evaluated on their own, whatever was called before"""
+        a, b = h_args(h, call)
+        key, sw = pair_key(h["ci"], a, b)
+        e = hexp.get(key)
+        if e is None:
+            return None
+        d = e["ba"] if sw else e["ab"]
+        return d if call[0] == "d" else sim_formula(d, size(a), size(b))
+
+    def h_ref(r):
+        return "tree %d" % r[0] if not r[1] else "the subtree of tree %d at %s" % (r[0], list(r[1]))
+
+    def h_judge(h, call, res):
+        """(failure class, message) or None for one result of a history"""
+        f = call[0]
+        if f == "prep":
+            return ("crash", "PrepareTreeForAPTED(%s) crashed: %s" % (h_ref(call[1]), res["error"])) if "error" in res else None
+        what = "%s(%s, %s)" % ("ComputeDistance" if f == "d" else "ComputeSimilarity", h_ref(call[1]), h_ref(call[2]))
+        if "error" in res:
+            return ("not-minimum-or-index-panic" if "index out of range" in res["error"] else "crash", "%s crashed: %s" % (what, res["error"]))
+        v = res.get("v")
+        if not isinstance(v, (int, float)):
+            return ("crash", "%s returned %r" % (what, res))
+        a, b = h_args(h, call)
+        if f == "sim" and not 0 <= v <= 1:
+            return ("range", "%s = %s is outside [0,1]" % (what, v))
+        if f == "d" and v < 0:
+            return ("range", "%s = %s is negative" % (what, v))
+        cfg = ALLCFG[h["ci"]]
+        exp = h_expected(h, call)
+        if canon(a) == canon(b) and v != (0 if f == "d" else 1):
+            return ("identity", "%s = %s although the two arguments are %s" % (what, v, "the same object" if call[1] == call[2] else "identical trees"))
+        if exp is None:
+            return None
+        if not (close(v, exp, cfg_exact(cfg)) if f == "d" else abs(fr(v) - exp) <= TOL):
+            return ("not-minimum-or-index-panic", "%s = %s, but %s of these two trees (%d and %d nodes) is %s (= %.12g) [%s cost model]" % (
+                what, v, "the minimum edit cost" if f == "d" else "1 - min(d,max)/max for the minimum edit cost d", size(a), size(b), exp, float(exp), cfg_name(cfg)))
+        return None
+
+    def h_tags(call, cls):
+        return {"stream": "history", "arguments": overlap_class(call[1], call[2]) if call[0] != "prep" else "one", "failure": cls}
+
+    def h_first_bad(h, calls, results):
+        for k, (c_, r_) in enumerate(zip(calls, results)):
+            j = h_judge(h, c_, r_)
+            if j and not ck.match_known(h_tags(c_, j[0])):
+                return k, j
+        return None
+
+    def h_shrink(h, k, results):
+        """shortest failing prefix, then calls in front of the failing one are dropped as long as the last call still fails"""
+        cur, res = h["calls"][:k + 1], results[:k + 1]
+        while len(cur) > 1:
+            cands = [cur[:i] + cur[i + 1:] for i in range(len(cur) - 1)]
+            try:
+                outs = lib.driver([hist_request(ALLCFG[h["ci"]], h["trees"], cs) for cs in cands], timeout=120)
+            except Exception:
+                break
+            nxt = None
+            for cs, o in zip(cands, outs):
+                rs = o.get("results") or []
+                fb = h_first_bad(h, cs, rs) if len(rs) == len(cs) else None
+                if fb is not None:
+                    nxt = (cs[:fb[0] + 1], rs[:fb[0] + 1])
+                    break
+            if nxt is None:
+                break
+            cur, res = nxt
+        return cur, res
+
+    hstat = {"histories": len(hists), "calls": 0, "distance": 0, "similarity": 0, "prepare": 0, "decided_against_spec": 0,
+             "same_call_again_after_a_subtree_call": 0, "known_finding_calls": 0, "objects": {}, "subtree_argument_position": {}}
+    nviol["history"] = 0
+    for h, r in zip(hists, himpl):
+        kinds[h["kind"]] = kinds.get(h["kind"], 0) + 1
+        results = r.get("results")
+        if "error" in r or not isinstance(results, list) or len(results) != len(h["calls"]):
+            ck.broken_ties.append("ted_seq hook failed: %s" % str(r)[:300])
+            continue
+        for k, (call, res) in enumerate(zip(h["calls"], results)):
+            hstat["calls"] += 1
+            hstat[{"d": "distance", "sim": "similarity", "prep": "prepare"}[call[0]]] += 1
+            for ref in call[1:]:
+                if ref is not None and ref[1]:
+                    pc = position_class(ref[1])
+                    hstat["subtree_argument_position"][pc] = hstat["subtree_argument_position"].get(pc, 0) + 1
+            if call[0] != "prep":
+                oc = overlap_class(call[1], call[2])
+                hstat["objects"][oc] = hstat["objects"].get(oc, 0) + 1
+                if h_expected(h, call) is not None:
+                    hstat["decided_against_spec"] += 1
+                if "v" in res:
+                    dists.add((cfg_name(ALLCFG[h["ci"]]), call[0], res["v"]))
+                prev = [i for i in range(k) if h["calls"][i] == call]
+                if prev and any(c_[1][1] or (c_[2] is not None and c_[2][1]) for c_ in h["calls"][prev[-1] + 1:k]):
+                    hstat["same_call_again_after_a_subtree_call"] += 1
+            j = h_judge(h, call, res)
+            if j is None:
+                continue
+            e = ck.match_known(h_tags(call, j[0]))
+            if e:
+                hstat["known_finding_calls"] += 1
+                ck.known_finding(e)
+                continue
+            nviol["history"] += 1
+            if nviol["history"] <= 3:
+                cur, rs = h_shrink(h, k, results)
+                cfg = ALLCFG[h["ci"]]
+                steps = []
+                for c_, r_ in zip(cur, rs):
+                    st_ = {"call": {"d": "ComputeDistance", "sim": "ComputeSimilarity", "prep": "PrepareTreeForAPTED"}[c_[0]],
+                           "a": h_ref(c_[1]), "b": h_ref(c_[2]) if c_[2] is not None else None, "impl": r_}
+                    if c_[0] != "prep":
+                        a_, b_ = h_args(h, c_)
+                        ex = h_expected(h, c_)
+                        st_.update({"objects": overlap_class(c_[1], c_[2]), "a_tree": json_tree(a_), "b_tree": json_tree(b_),
+                                    "spec": None if ex is None else "%s (= %.12g)" % (ex, float(ex))})
+                    steps.append(st_)
+                jl = h_judge(h, cur[-1], rs[-1]) or j
+                ck.violation("history of %d call(s) on one analyzer over shared TreeNode objects, last call: %s" % (len(cur), jl[1]), {
+                    "kind": h["kind"], "cost_model": cfg_name(cfg), "ignore_literals": cfg[1], "ignore_identifiers": cfg[2],
+                    "trees": [json_tree(t) for t in h["trees"]], "history": steps, "failing_call": len(cur) - 1,
+                    "generated_history_calls": len(h["calls"]), "generated_history_failing_call": k,
+                    "hook_request": hist_request(cfg, h["trees"], cur)})
+            break   # the results after a wrong one are no independent evidence
+
+    ck.samples =[{"t1": json_tree(cases[k]["a"]), "t2": json_tree(cases[k]["b"]), "cost": cfg_name(ALLCFG[cases[k]["ci"]]), "impl_d": impl[k].get("d"),
                    "spec_units": unlimb(model[k][0]) if model[k] else None} for k in (0, len(cases) // 3, len(cases) // 2, len(cases) - 8) if k < len(cases)]
     ck.cov.update({
-        "evaluations": len(cases) + nbig,
+        "evaluations": len(cases) + nbig + hstat["calls"],
         "distinct_nontrivial": len(dists),
         "rule": "tree pairs: exhaustive <=4 nodes/2 labels (all for default; sampled for python/weighted in quick), sampled <=5 nodes, "
                 "random trees up to %d nodes (identical, relabelled, k-edit mutations with known cost bound, independent, subtree), "
@@ -782,7 +1081,15 @@ def main(tier):
                 "weighted family NewWeightedCostModel(ins,del,ren,base) with %d weight triples (fixed corners incl. zero/tiny/huge weights + random dyadic, "
                 "mostly ins<>del) over the default and Python base models: all ordered pairs <=3 nodes/2 labels for the first members, "
                 "size classes larger-first/smaller-first/equal in both argument orders, random trees <=24 nodes with k-edit bound, both directions decided; "
-                "distinct = distinct (cost model, distance) values seen; %d cases with distance > 0" % (nmax, len(wcfgs), nontrivial),
+                "HISTORIES on one analyzer over TreeNode objects built once (op ted_seq): per cost model (all %d) trees T of 5-12 nodes/2-3 labels, X (a k-edit "
+                "mutation of T or independent) and a separate copy of T; for EVERY non-root position p of T a sequence of 3-8 calls f(T,X); g(subtree at p, partner); "
+                "f(T,X) again; ... with the partner rotating over X, a subtree of X, the copy of the subtree, T itself, another subtree of T, the subtree itself, "
+                "the copy of T, continued with T against its copy, the other argument order, the same object twice, further subtree calls, sometimes "
+                "PrepareTreeForAPTED first as at fragment extraction; plus unstructured histories over all (tree, path) arguments; EVERY distance/similarity of a "
+                "history is decided against the spec of its own two (sub)trees (no dependence on earlier calls) and the identity clauses; a failing history is "
+                "cut to its shortest failing prefix and calls in front of the failing one are dropped while it still fails; "
+                "distinct = distinct (cost model, distance) values seen; %d cases with distance > 0" % (nmax, len(wcfgs), len(ALLCFG), nontrivial),
+        "histories": hstat,
         "weighted_family_members": [cfg_name(c) for c in wcfgs],
         "input_distribution": dict(kinds, above_limit=nbig, brute_force_checked=n_brute,
                                    coq_evaluated=sum(1 for m in model if m is not None)),
@@ -796,6 +1103,10 @@ def main(tier):
                    "hand-written model Ted/ZS.v of apted.go/apted_tree.go (exact path only; computeDistanceOptimized not modelled)",
                    "hand-written model Ted/Cost.v of the cost models, compared on a %d-label alphabet with the implementation's tables" % len(LABELS),
                    "minimum edit cost = minimum over Tai mappings (each node edited at most once); python/weighted costs are not a metric",
-                   "pyscn-verif ted hook builds TreeNode values with NewTreeNode/AddChild and uses the analyzer NewCloneDetector builds"]
+                   "pyscn-verif ted hook builds TreeNode values with NewTreeNode/AddChild and uses the analyzer NewCloneDetector builds",
+                   "pyscn-verif ted_seq hook: builds the trees once, resolves (tree, path) to the TreeNode reached through Children and calls ComputeDistance / "
+                   "ComputeSimilarity / PrepareTreeForAPTED in the given order on one analyzer (a panic of one call is reported for that call only)"]
     ck.finish(assumptions=["labels are ASCII strings; both trees have at most 500 nodes (exact path) except for the similarity-range and identical-tree clauses",
-                           "trees are separate objects or the same object; a tree that is a sub-object of the other is not exercised"])
+                           "the two arguments of one call are separate objects, the same object, disjoint subtrees of one tree or a tree and a node on its "
+                           "left-most path; a node elsewhere inside the other argument is exercised and is the open finding C07-F1",
+                           "histories: the trees are not modified between the calls of a history (only the index fields the analyzer itself writes change)"])
